@@ -86,6 +86,10 @@ def node_fns(facts, base):
     return [f for f in facts.fns if f.gname == f'{NODE}::{base}' and not f.d.get('lambda')]
 
 
+def _self_calls(f):
+    return any(x.k == 'call' and strip_targs(x.calleeq or '') == f.gname for x in f.nodes())
+
+
 def children_loop_iterations(f, E):
     """iterations of loops over m_children entered on this path (range-for, iterator loops, while loops: by the container the loop test is about)"""
     # loops of the function itself and of every function of the same translation unit it may inline (a traversal helper such as
@@ -97,13 +101,27 @@ def children_loop_iterations(f, E):
             if strip_targs(x.calleeq or '') == f.gname: return True
             if g is not f and (x.n('calleeexpr') is not None or (x.ck == 'op' and x.op == '()')): return True
         return False
-    conds = {n.n('c').id for n in f.nodes() if n.k in ('rangefor', 'for', 'while', 'do') and n.n('c') is not None}
+    # (a loop over the children that does not descend - e.g. one that recomputes a cached depth from them - is not the traversal)
+    conds = {n.n('c').id for n in f.nodes() if n.k in ('rangefor', 'for', 'while', 'do') and n.n('c') is not None and (carries(n, f) or not _self_calls(f))}
     conds |= {n.n('c').id for g in f.tu.functions if g is not f for n in g.nodes() if n.k in ('rangefor', 'for', 'while', 'do') and n.n('c') is not None and carries(n, g)}
     vis = [(i, c) for i, c in loop_visits(E, conds) if c == 'm_children']
     # a standard algorithm that applies a callable to every child (std::for_each, the range form included) is one such loop: the
     # evaluator runs the callable once, on a representative child
     fe = [e for e in E if e.kind == 'foreach' and e.obj == 'm_children']
     return len(vis) + len(fe), conds
+
+
+KNOWN_NODE_FIELDS = ('m_name', 'm_subject', 'm_children')
+
+
+def _extra_field_fork(facts, P):
+    """the condition of a branch this path took without the evaluator deciding it, if it tests a member of Node outside m_name /
+    m_subject / m_children (else None)"""
+    for c, v, h in P.decisions:
+        if h != 'fork' or c is None: continue
+        for x in c.walk():
+            if x.k == 'member' and x.field and (x.d.get('class') or '') == NODE and x.name not in KNOWN_NODE_FIELDS: return c
+    return None
 
 
 def _no_observers_branch(P):
@@ -253,6 +271,11 @@ class RouterAnalysis:
                 res = run_paths(self.facts, f, dom)
                 row = f'(matches={matches}, leaf={leaf}, subject={has_subject}, next is regex={regex}, child found={found})'
                 for P, E in res:
+                    xf = _extra_field_fork(self.facts, P)
+                    if xf is not None:
+                        # the path was chosen by a test of a member the traversal tables know nothing about (a cached depth, a counter, a flag):
+                        # what the test means is not followed, so this path neither proves nor refutes the row
+                        self.add('RT.3', None, f'{short} row {row}: traversal', xf.shortloc(), f'the path depends on `{(xf.text() or "")[:60]}`, a test of a member outside the traversal tables: not followed'); continue
                     leafn = [e for e in E if e.kind == 'call' and strip_targs(e.name) == 'tulz::Subject::notify']
                     rec = [e for e in E if e.kind == 'call' and strip_targs(e.name) == f'{NODE}::notify']
                     ret = as_lin(P.ret) if P.ret is not None else None
